@@ -474,7 +474,14 @@ def threadsafe_async_cache(
                         await waiter
                     except aio.CancelledError:
                         pass
-                raise
+                    raise
+                if not waiter.cancelled() or _being_cancelled():
+                    raise
+                # The shielded waiter itself was cancelled, not this
+                # task: the caching loop was shut down and cancelled the
+                # proxy waiting on it. That is none of the caller's
+                # business, loop around and check (most likely taking
+                # over the caching from the loop which is gone).
 
     return _wrapper  # type: ignore[return-value]
 
